@@ -54,6 +54,7 @@ def ending_steps(draw, spec, ending, removed=()):
 def sim_case(draw, tier="quick"):
     nm = draw(st.integers(1, 3))
     markets, scripts = [], []
+    combined = nm > 1 and draw(st.integers(0, 3)) == 0
     for mi in range(nm):
         mt = draw(st.sampled_from(["WIN", "WIN", "PLACE", "EACH_WAY"]))
         spec = world.default_market(mi, draw(st.integers(2, 4)), event=draw(st.integers(0, 1)))
@@ -69,7 +70,7 @@ def sim_case(draw, tier="quick"):
             spec["each_way_divisor"] = draw(st.sampled_from([3, 4, 5]))
         if mt == "PLACE":
             spec["number_of_winners"] = 2
-        ending = draw(st.sampled_from(ENDINGS))
+        ending = "close" if combined else draw(st.sampled_from(ENDINGS))
         spec["_ending"] = ending
         if ending.startswith("first-closed"):
             spec["initial_status"] = "CLOSED"
@@ -91,11 +92,32 @@ def sim_case(draw, tier="quick"):
         strategies.append(gen.strategy_spec("SUB0", markets=[0], client=n_clients - 1, script=[]))
     if draw(st.booleans()):
         strategies.append(dict(gen.strategy_spec("EMPTY", script=[]), empty_filter=True))
-    return {"markets": markets, "strategies": strategies, "clients": [{"min_bet_validation": False}] * n_clients,
-            "config": {}, "record_mw": draw(st.booleans()), "event_processing": draw(st.booleans())}
+    sc = {"markets": markets, "strategies": strategies, "clients": [{"min_bet_validation": False}] * n_clients,
+          "config": {}, "record_mw": draw(st.booleans()), "event_processing": draw(st.booleans())}
+    if combined:
+        # ONE recording holding all the markets (event-level file) on a common one-second grid: every message then
+        # carries the books of all its markets, and the closing books of all markets arrive in ONE final update.
+        # (Only the plain ending: once a market of such a file has closed, the data layer re-emits its closed book
+        #  with every later message, which is not a closing update of the recording.)
+        sc["combined_file"] = True
+        sc["event_processing"] = False
+        longest = max(len(m["steps"]) for m in markets)
+        for mi, m in enumerate(markets):
+            m["start_pt"] = world.BASE_PT
+            for st_ in m["steps"]:
+                st_["dt"] = 1000
+            m["steps"] = [{"dt": 1000, "k": "book", "rc": []} for _ in range(longest - len(m["steps"]))] + m["steps"]
+    return sc
 
 
 def check_sim(sc):
+    if sc.get("combined_file"):
+        ends = [world.render(m).updates[-1] for m in sc["markets"]]
+        if len({u.pt for u in ends}) != 1 or any(u.status != "CLOSED" for u in ends) or \
+                any(sum(1 for u in world.render(m).updates if u.status == "CLOSED") != 1 for m in sc["markets"]):
+            # outside the generator's domain (reachable by minimisation only): a market of a shared recording that
+            # closed before the others is re-emitted by the data layer with every later message
+            return False, {"not-judged:combined-file-without-common-single-close"}
     with simlab.lab(sc, snapshots=True, snapshot_cbs=("process_closed_market", "check_market_book")) as lb:
         lb.run()
         if lb.error is not None:
@@ -138,7 +160,9 @@ def _eval_sim(sc, lb):
                 closing.append((u, seen_open))
             else:
                 seen_open = True
-        sub = {"ALL": True, "SUB0": mi == 0, "EMPTY": True}
+        sub = {"ALL": True, "SUB0": mi == 0 or bool(sc.get("combined_file")), "EMPTY": True}
+        if sc.get("combined_file"):
+            classes.add("several-markets-in-one-recording")
         msegs = [s for s in segs if s["market"] == spec["id"]]
         orders_by_pt = {}
         for (u, known) in closing:
